@@ -1084,6 +1084,8 @@ func (s *SSEServer) sendSuccessResponse(requestID interface{}, result interface{
 	fullResponseData, err := json.Marshal(response)
 	if err != nil {
 		s.logger.Errorf("Error encoding full response: %v", err)
+		// The request still gets an answer.
+		s.handleRequestError(fmt.Errorf("failed to encode result: %w", err), requestID, session)
 		return
 	}
 
